@@ -1116,7 +1116,8 @@ class PolyhedralTermList(TermList):  # noqa: WPS338
                 is_refinement = False
                 break
             else:
-                if -res["fun"] <= b_temp:  # noqa: WPS309
+                # the optimum is computed in floating point: allow for solver round-off
+                if -res["fun"] <= b_temp + 1e-6 * (1 + abs(b_temp)):  # noqa: WPS309
                     logging.debug("Redundant constraint")
                 else:
                     is_refinement = False
